@@ -140,6 +140,8 @@ def _originals():
             l = off // base.strides[0]
             if off % base.strides[0] == 0 and 0 <= l <= len(base):
                 return (int(l), int(l) + len(pt))
+        except Timeout:
+            raise
         except Exception:
             pass
         return None
@@ -253,7 +255,7 @@ class C04:
         p = np.array([[0., 1.], [1., 3.], [2., 2.], [3., 5.], [4., 1.]])
         for c in metrics.Metrics:
             for d in rdp.Distance:
-                rdp.rdp(p, 0.1 if c is not metrics.Metrics.r2 else 0.9, d, c)
+                call(rdp.rdp, p, 0.1 if c is not metrics.Metrics.r2 else 0.9, d, c)   # numba compilation; failures are judged per case
         _originals()
 
     # ---- shared by run_impl / on_timeout
@@ -304,10 +306,15 @@ class C04:
         import kneeliverse.metrics as metrics
         c, orc = self._prepare(c)
         pts = orc.points
+        # core arms a one-shot alarm; re-arm it as a repeating one so that a Timeout swallowed by some
+        # `except Exception` inside the implementation cannot turn a cycling loop into a hung worker
+        import signal
+        signal.setitimer(signal.ITIMER_REAL, self.timeout, 0.25)
         record_start(pts)
         try:
             st, out = call(rdp.rdp, pts, c['t'], rdp.Distance[c['dist']], metrics.Metrics[c['cost']])
         finally:
+            signal.setitimer(signal.ITIMER_REAL, 0)
             td, tc = record_stop()
         c['impl'] = 'returned' if st == 'ok' else 'raised ' + str(out)
         c['out'] = None
